@@ -26,3 +26,4 @@ void h_arenas_try_purge(void) {
   mi_arenas_try_purge(force, visit_all);
   VC_REACH();
 }
+void h_arena_purge_delay(void) { long d = mi_arena_purge_delay(); VC_REACH(); }
